@@ -598,26 +598,75 @@ def enc_of(t):
     return 'enc_' + t[1]
 
 
-def dec_of(t, rec=None):
-    """rec = (TypeName, term) : decoder term to use for the recursive reference"""
+_IRS = {}
+
+
+def is_internal(name):
+    ir = _IRS.get(name)
+    return bool(ir) and ir['kind'] == 'enum' and ir['rep'] == 'internal'
+
+
+def dec_of(t, rec=None, buf=False):
+    """rec = (TypeName, term) : decoder term to use for the recursive reference;
+    buf : the value is read from buffered content (inside an internally tagged / untagged enum): internally tagged enums
+    then also accept their tag as a variant index"""
     k = t[0]
     if k == 'prim':
         return 'dec_' + t[1]
     if k == 'list':
-        return '(dec_list %s)' % dec_of(t[1], rec)
+        return '(dec_list %s)' % dec_of(t[1], rec, buf)
     if k == 'opt':
-        return '(dec_opt %s)' % dec_of(t[1], rec)
+        return '(dec_opt %s)' % dec_of(t[1], rec, buf)
     if k == 'pair':
-        return '(dec_pair %s %s)' % (dec_of(t[1], rec), dec_of(t[2], rec))
+        return '(dec_pair %s %s)' % (dec_of(t[1], rec, buf), dec_of(t[2], rec, buf))
     if k == 'smap':
         return 'dec_smap'
     if rec and t[1] == rec[0]:
         return rec[1]
+    if is_internal(t[1]):
+        return '(dec_%s_ctx %s)' % (t[1], 'true' if buf else 'false')
     return 'dec_' + t[1]
+
+
+def check_contexts(irs, roots):
+    """serde reads the fields of internally tagged / untagged enums from buffered content, where an internally tagged enum
+    accepts an integer tag.  The flag is passed by the enum that directly (through Vec / Option) contains the tagged enum;
+    a struct or untagged enum in between would have to forward it — not supported, so refuse."""
+    memo = {}
+
+    def has_internal(name, seen=()):
+        if name in memo:
+            return memo[name]
+        if name in seen:
+            return False
+        ir = irs[name]
+        r = (ir['kind'] == 'enum' and ir['rep'] == 'internal') or any(has_internal(d, seen + (name,)) for d in ir['deps'])
+        memo[name] = r
+        return r
+
+    done = set()
+
+    def visit(name, buf):
+        if (name, buf) in done:
+            return
+        done.add((name, buf))
+        ir = irs[name]
+        if ir['kind'] == 'struct' or ir['rep'] == 'untagged':
+            if buf and has_internal(name):
+                fail('%s is read from buffered content and contains an internally tagged enum: forwarding the content flag '
+                     'through structs / untagged enums is not supported' % name)
+        inner = buf if ir['kind'] == 'struct' else (True if ir['rep'] in ('internal', 'untagged') else buf)
+        for d in ir['deps']:
+            visit(d, inner)
+
+    for r in roots:
+        visit(r, False)
 
 
 class Emitter:
     def __init__(self, irs):
+        global _IRS
+        _IRS = irs
         self.irs = irs
         self.weak = {}      # type name -> True for types whose round trip holds up to norm_T
         self.lines = []
@@ -664,16 +713,16 @@ class Emitter:
                 parts.append('FReq %s (%s %s)' % (cq(f['ser']), enc_of(f['ty']), v))
         return 'JObj (kv_of [' + '; '.join(parts) + '])'
 
-    def dec_fields_obj(self, fields, ctor, rec=None):
+    def dec_fields_obj(self, fields, ctor, rec=None, buf=False):
         s = ''
         for k, f in enumerate(fields):
             look = 'get %s kv' % names_list(f['de'])
             if f.get('default_term'):
-                rd = 'dflt %s %s (%s)' % (f['default_term'], dec_of(f['ty'], rec), look)
+                rd = 'dflt %s %s (%s)' % (f['default_term'], dec_of(f['ty'], rec, buf), look)
             elif f['ty'][0] == 'opt':
-                rd = 'opt %s (%s)' % (dec_of(f['ty'][1], rec), look)
+                rd = 'opt %s (%s)' % (dec_of(f['ty'][1], rec, buf), look)
             else:
-                rd = 'req %s (%s)' % (dec_of(f['ty'], rec), look)
+                rd = 'req %s (%s)' % (dec_of(f['ty'], rec, buf), look)
             s += 'bind (%s) (fun a%d => ' % (rd, k)
         s += 'Some (%s%s)' % (ctor, ''.join(' a%d' % k for k in range(len(fields))))
         s += ')' * len(fields)
@@ -788,31 +837,32 @@ class Emitter:
             body += '    | _ => None\n    end'
             self.w('Definition dec_%s (j : json) : option %s :=\n  bind (unit_variant_name j) (fun s => %s).' % (n, n, body))
         elif rep == 'internal':
-            recd = (n, '(dec_%s_f n\')' % n) if rec else None
+            recd = (n, '(dec_%s_f true n\')' % n) if rec else None
             nss = '[' + '; '.join(names_list(v['de']) for v in vs) + ']'
             body = 'match vindex s %s with\n' % nss
             for k, v in enumerate(vs):
                 if v['shape'] == 'unit':
                     d = 'Some %s' % self.ctor(ir, v)
                 else:
-                    d = self.dec_fields_obj(v['fields'], self.ctor(ir, v), recd)
+                    d = self.dec_fields_obj(v['fields'], self.ctor(ir, v), recd, buf=True)
                 body += '    | Some %d%%nat => %s\n' % (k, d)
             body += '    | _ => None\n    end'
-            core = 'bind (tag_of %s j) (fun \'(s, kv) =>\n    %s)' % (cq(ir['tag']), body)
+            core = 'bind (tag_of b %s %s j) (fun \'(s, kv) =>\n    %s)' % (cq(ir['tag']), nss, body)
+            self.w('(* b: read from buffered content (nested in another tagged / untagged enum) — the tag may then be a variant index *)')
             if rec:
-                self.w('Fixpoint dec_%s_f (n : nat) (j : json) : option %s :=\n  match n with O => None | S n\' =>\n  %s\n  end.' % (n, n, core))
-                self.w('Definition dec_%s (j : json) : option %s := dec_%s_f (S (jdepth j)) j.' % (n, n, n))
+                self.w('Fixpoint dec_%s_f (b : bool) (n : nat) (j : json) {struct n} : option %s :=\n  match n with O => None | S n\' =>\n  %s\n  end.' % (n, n, core))
+                self.w('Definition dec_%s_ctx (b : bool) (j : json) : option %s := dec_%s_f b (S (jdepth j)) j.' % (n, n, n))
             else:
-                self.w('Definition dec_%s (j : json) : option %s :=\n  %s.' % (n, n, core))
+                self.w('Definition dec_%s_ctx (b : bool) (j : json) : option %s :=\n  %s.' % (n, n, core))
         else:
             for k, v in enumerate(vs):
                 c = self.ctor(ir, v)
                 if v['shape'] == 'newtype':
-                    self.w('Definition dec_%s_v%d (j : json) : option %s := option_map %s (%s j).' % (n, k, n, c, dec_of(v['ty'])))
+                    self.w('Definition dec_%s_v%d (j : json) : option %s := option_map %s (%s j).' % (n, k, n, c, dec_of(v['ty'], None, True)))
                 else:
                     # serde_derive de/struct_.rs: `StructForm::Untagged(_) => None` — no visit_seq for untagged struct variants
                     self.w('Definition dec_%s_v%d (j : json) : option %s :=\n  match j with\n  | JObj kv => %s\n  | _ => None\n  end.'
-                           % (n, k, n, self.dec_fields_obj(v['fields'], c)))
+                           % (n, k, n, self.dec_fields_obj(v['fields'], c, None, True)))
             body = 'None'
             for k in reversed(range(len(vs))):
                 body = 'orelse (dec_%s_v%d j) (%s)' % (n, k, body)
@@ -822,7 +872,7 @@ class Emitter:
 
         taint_fields = any(self.tainted_ty(f['ty']) for v in vs if v['shape'] == 'struct' for f in v['fields']) or \
             any(self.tainted_ty(v['ty']) for v in vs if v['shape'] == 'newtype')
-        unf = 'unfold dec_%s%s' % (n, ''.join(', dec_%s_v%d' % (n, k) for k in range(len(vs))) if rep == 'untagged' else '')
+        unf = 'unfold dec_%s%s%s' % (n, '_ctx' if rep == 'internal' else '', ''.join(', dec_%s_v%d' % (n, k) for k in range(len(vs))) if rep == 'untagged' else '')
         destr = 'destruct x'
         if rep == 'untagged' and any(v['shape'] == 'newtype' for v in vs) and not weak_root:
             if not all(v['shape'] == 'newtype' and v['ty'][0] == 'named' and self.irs[v['ty'][1]]['kind'] == 'struct' for v in vs):
@@ -855,6 +905,8 @@ class Emitter:
             self.w('Proof. intros [l|[|b l]]; cbn; split; congruence. Qed.')
             thm = 'rtn+encn (ambiguous root)'
         elif taint_fields:
+            if rep == 'internal':
+                fail('%s: internally tagged enum containing an ambiguous enum is not supported' % n)
             if rec:
                 fail('%s: recursive type containing an ambiguous enum is not supported' % n)
             self.weak[n] = True
@@ -879,19 +931,24 @@ class Emitter:
             self.w('#[export] Instance ENCN_%s : ENCN enc_%s norm_%s := encn_%s.' % (n, n, n, n))
             thm = 'rtn+encn'
         elif rec:
-            self.w('Lemma rt_%s_f : forall n x, (jdepth (enc_%s x) < n)%%nat -> dec_%s_f n (enc_%s x) = Some x.' % (n, n, n, n))
-            self.w('Proof.\n  induction n as [|n IH]; intros x H; [lia|].\n'
+            self.w('Lemma rt_%s_f : forall n b x, (jdepth (enc_%s x) < n)%%nat -> dec_%s_f b n (enc_%s x) = Some x.' % (n, n, n, n))
+            self.w('Proof.\n  induction n as [|n IH]; intros b x H; [lia|].\n'
                    '  destruct x; cbn [dec_%s_f]; unfold tag_of; cbn [enc_%s]; cbn [enc_%s] in H; rt_go;\n'
-                   '  cbn [req]; (rewrite (rt_list_bounded _ _ _ n IH); [rt_go|]);\n'
+                   '  cbn [req]; (rewrite (rt_list_bounded _ _ _ n (IH true)); [rt_go|]);\n'
                    '  cbn [jdepth kv_of fold_right snd] in H; lia.\nQed.' % (n, n, n))
-            self.w('Lemma rt_%s : forall x, dec_%s (enc_%s x) = Some x.' % (n, n, n))
-            self.w('Proof. intros x. apply rt_%s_f. lia. Qed.' % n)
-            self.w('#[export] Instance RT_%s : RT enc_%s dec_%s := rt_%s.' % (n, n, n, n))
+            self.w('Lemma rt_%s : forall b x, dec_%s_ctx b (enc_%s x) = Some x.' % (n, n, n))
+            self.w('Proof. intros b x. apply rt_%s_f. lia. Qed.' % n)
+            self.w('#[export] Instance RT_%s b : RT enc_%s (dec_%s_ctx b) := rt_%s b.' % (n, n, n, n))
             thm = 'rt (fuel = depth)'
         else:
-            self.w('Lemma rt_%s : forall x, dec_%s (enc_%s x) = Some x.' % (n, n, n))
-            self.w('Proof. intros x; %s; cbn [enc_%s]; %s; rt_go. Qed.' % (destr, n, unf))
-            self.w('#[export] Instance RT_%s : RT enc_%s dec_%s := rt_%s.' % (n, n, n, n))
+            if rep == 'internal':
+                self.w('Lemma rt_%s : forall b x, dec_%s_ctx b (enc_%s x) = Some x.' % (n, n, n))
+                self.w('Proof. intros b x; %s; cbn [enc_%s]; %s; rt_go. Qed.' % (destr, n, unf))
+                self.w('#[export] Instance RT_%s b : RT enc_%s (dec_%s_ctx b) := rt_%s b.' % (n, n, n, n))
+            else:
+                self.w('Lemma rt_%s : forall x, dec_%s (enc_%s x) = Some x.' % (n, n, n))
+                self.w('Proof. intros x; %s; cbn [enc_%s]; %s; rt_go. Qed.' % (destr, n, unf))
+                self.w('#[export] Instance RT_%s : RT enc_%s dec_%s := rt_%s.' % (n, n, n, n))
             thm = 'rt'
         self.w('#[export] Instance NN_%s : NN enc_%s. Proof. intros x; destruct x; cbn [enc_%s]; first [reflexivity | apply nn]. Qed.' % (n, n, n))
         self.info.append({'type': n, 'kind': 'enum:' + rep, 'variants': len(vs), 'theorem': thm})
@@ -931,6 +988,7 @@ def translate(repo, outdir):
     order_s = [n for n in order_s if n not in irs_p]
     irs = dict(irs_s)
     irs.update(irs_p)
+    check_contexts(irs, ROOTS_PROBLEM + ROOTS_SOLUTION)
     em = Emitter(irs)
     dg = ', '.join('%s=%s' % (k, v) for k, v in sorted(digests.items()))
     files = {}
